@@ -94,6 +94,11 @@ def check_property(prop, tier, runs, level_note, assumptions):
                     st["introspection"] = row["introspection"]
                 if row.get("layout"):
                     st["layout"] = row["layout"]
+                for k in ("galg_depth_completed", "galg_states", "galg_transitions", "histories_depth_completed", "model_states", "model_transitions"):
+                    if k in row:
+                        st[k] = row[k]
+                if row.get("cut"):
+                    st["exhaustive"] = False
                 continue
             res = row.get("result")
             if row["status"] == 3:
@@ -103,7 +108,7 @@ def check_property(prop, tier, runs, level_note, assumptions):
             if row["status"] == 2 or res is None:
                 internal.append("%s: program '%s': %s" % (hid, row.get("program"), row.get("err")))
                 continue
-            st["programs"] += 1
+            st["programs"] += res.get("programs", 1)
             st["executions"] += res["executions"]
             st["steps"] += res["steps"]
             st["states"] += max(res["states"], 1)
